@@ -17,7 +17,7 @@ package utils
 //@   nopanic
 //@   ensures [scaled] fresh(result) && result.Min == scaledMin(*r, scale) && result.Max == scaledMax(*r, scale)
 //@ func NewValueRange
-//@   property C14 C16 C17
+//@   property C14 C16 C17 C18
 //@   ensures [zero] fresh(result) && result.Min == 0.0 && result.Max == 0.0
 
 //@ func (*ExpFromZeroFunction).Evaluate
@@ -38,12 +38,12 @@ package utils
 //@   nopanic
 //@   ensures result <==> (0.0 <= value && value <= 1.0)
 //@ func IsPositive
-//@   property C05 C20
+//@   property C05 C20 C18
 //@   nopanic
 //@   ensures result <==> value > 0.0
 
 //@ func ContainsString
-//@   property C09 C20 C01
+//@   property C09 C20 C01 C18
 //@   nopanic
 //@   ensures [member] result <==> exists k int :: 0 <= k && k < len(*slice) && (*slice)[k] == *value
 //@   loop 1 invariant [none] forall k int :: 0 <= k && k < iter ==> (*slice)[k] != *value
